@@ -27,7 +27,11 @@ cp -r SEEDED/* "$out"/ 2>/dev/null
 for f in $(git status --porcelain | grep -E '^\?\?|^A' | awk '{print $2}' | grep -E 'seeded|SEEDED/demo' ); do mkdir -p "$out/demo_files/$(dirname $f)"; cp -r "$f" "$out/demo_files/$f" 2>/dev/null; done
 # overlay for the harness
 ovl="$out/overlay.json"; echo '{"Replace":{' > "$ovl"; first=1
-for f in $files; do [ $first = 1 ] || echo ',' >> "$ovl"; first=0; mkdir -p "/var/tmp/verif/seedsrc/$name/$(dirname $f)"; cp "$f" "/var/tmp/verif/seedsrc/$name/$f"; echo "\"/repo/$f\":\"/var/tmp/verif/seedsrc/$name/$f\"" >> "$ovl"; done
+# overlay sources = /repo's CURRENT files with the patch applied (the worktree may be based on an older /repo commit)
+rm -rf "/var/tmp/verif/seedsrc/$name"
+for f in $files; do mkdir -p "/var/tmp/verif/seedsrc/$name/$(dirname $f)"; cp "/repo/$f" "/var/tmp/verif/seedsrc/$name/$f"; done
+( cd "/var/tmp/verif/seedsrc/$name" && patch -p1 -s --no-backup-if-mismatch < "$out/patch.diff" ) || { echo "SEED $name: patch does not apply to /repo HEAD; using the worktree's files"; for f in $files; do cp "$f" "/var/tmp/verif/seedsrc/$name/$f"; done; }
+for f in $files; do [ $first = 1 ] || echo ',' >> "$ovl"; first=0; echo "\"/repo/$f\":\"/var/tmp/verif/seedsrc/$name/$f\"" >> "$ovl"; done
 echo '}}' >> "$ovl"
 res=""
 for id in "$@"; do
